@@ -103,11 +103,13 @@ def _dataset(root, world):
         anns = []
         for inst, cat, (x, y, yaw), size in (("i0", "car", (5.0 + k, 1.0, 0.2), (2.0, 4.0, 1.5)),
                                              ("i1", "car", (15.0, -4.0 + k, -1.2), (2.0, 4.0, 1.5)),
-                                             ("i2", "pedestrian.adult", (8.0, 6.0, 0.0), (0.6, 0.6, 1.7))):
+                                             ("i2", "pedestrian.adult", (8.0, 6.0, 0.0), (0.6, 0.6, 1.7)),
+                                             # a false-positive-labelled annotation (a spot where nothing must be reported); the "efp" estimate sits on it
+                                             ("i3", "false_positive", (11.0, 3.0 + 0.3 * k, 0.4), (2.0, 4.0, 1.5))):
             p, gyaw = gp(x, y, yaw)
             anns.append(dict(inst=inst, cat=cat, pos=p, yaw=gyaw, size=size, npts=10, vis="full"))
         samples.append(dict(ts=1000000 + 100000 * k, ego=ego, anns=anns))
-    t4.write(root, samples, ["car", "pedestrian.adult"])
+    t4.write(root, samples, ["car", "pedestrian.adult", "false_positive"])
 
 
 class World:
@@ -122,7 +124,7 @@ class World:
             self.m = PerceptionEvaluationManager(self.ec)
         self.name = name
         self.tracking = task == "tracking"
-        assert len(self.m.ground_truth_frames) == 3 and all(len(f.objects) == 3 for f in self.m.ground_truth_frames)
+        assert len(self.m.ground_truth_frames) == 3 and all(len(f.objects) == 4 for f in self.m.ground_truth_frames)
         self.pristine = [list(f.objects) for f in self.m.ground_truth_frames]
         self.deep = self.deep_snapshot()
         self.fresh1 = {}
@@ -160,6 +162,17 @@ class World:
         salt = 0.0007 * ("wide", "narrow").index(c)
         out = []
         for j, o in enumerate(self.pristine[k]):
+            if j == 3:     # the false-positive-labelled ground truth: an estimate labelled car is reported right on it (every kind but none / cars_only)
+                if kind in ("none", "cars_only"):
+                    continue
+                e = copy.deepcopy(o)
+                e.uuid = "efp"
+                e.semantic_label = Label(AutowareLabel.CAR, "car", [])
+                e.semantic_score = 0.21 + 0.01 * k - 0.0013 * SALT_KIND[kind] - salt
+                p = o.state.position
+                e.state.position = (p[0] + 0.2, p[1], p[2])
+                out.append(e)
+                continue
             if kind == "missing" and j == 1:
                 continue
             if kind == "none" or (kind == "cars_only" and j == 2) or (kind == "altframe" and j == 1):
@@ -238,7 +251,8 @@ def _scene_check(W, hist, acc, bad):
 
     if ms(s1) != ms(s2):
         bad("scene:query-not-idempotent", "two consecutive get_scene_result() calls differ")
-    tot = sum(len(fr.frame_ground_truth.objects) for fr in m.frame_results)
+    # (ground truths of the target labels: the false-positive-labelled annotation is not an object to be found)
+    tot = sum(1 for fr in m.frame_results for o in fr.frame_ground_truth.objects if o.semantic_label.label in (AutowareLabel.CAR, AutowareLabel.PEDESTRIAN))
     if s1.num_ground_truth != tot:
         bad("scene:gt-count", "scene ground-truth count %d != sum over frames %d" % (s1.num_ground_truth, tot))
     if len(m.frame_results) == 1:
@@ -262,6 +276,14 @@ def _scene_check(W, hist, acc, bad):
                 for i in range(1, len(frames_l)):
                     c2 = CLEAR([list(frames_l[i - 1]), list(frames_l[i])], 1, [lab], ts.matching_mode, [ts.clears[li].matching_threshold_list[0]])
                     tp, fp, sw, sc = tp + c2.tp, fp + c2.fp, sw + c2.id_switch, sc + c2.tp_matching_score
+                    # the frame's own tracking score (computed when the frame was added) is the score of this very step, recomputed here
+                    # from the object results the frame holds now
+                    for ts_f in m.frame_results[i - 1].metrics_score.tracking_scores:
+                        if ts_f.matching_mode == ts.matching_mode and ts_f.clears[li].matching_threshold_list[0] == ts.clears[li].matching_threshold_list[0]:
+                            cf = ts_f.clears[li]
+                            if (cf.tp, cf.fp, cf.id_switch) != (c2.tp, c2.fp, c2.id_switch):
+                                bad("frame:clear-vs-stored-results", "frame #%d label %s mode %s: the frame reported tp=%s fp=%s id_switch=%s, its stored object results (with the "
+                                    "previous frame's) score tp=%s fp=%s id_switch=%s" % (i - 1, lab.name, ts.matching_mode.value, cf.tp, cf.fp, cf.id_switch, c2.tp, c2.fp, c2.id_switch))
                 c = ts.clears[li]
                 acc.compared()
                 if (c.tp, c.fp, c.id_switch) != (tp, fp, sw) or abs(c.tp_matching_score - sc) > 1e-9:
